@@ -18,7 +18,7 @@
 From Coq Require Import List Ascii String Bool Arith PrimFloat.
 From Verif Require Import Base.Result Base.Str Base.Sexp Base.PyDict Base.Float
   Model.Tokenizer Model.Types Model.Domain Model.Exec Model.ChangeSignature
-  Spec.Pddl Spec.Grammar Spec.Rename Proofs.C18_Check Corr.Common Corr.Core.
+  Spec.Pddl Spec.Grammar Spec.Rename Proofs.C18_Check Proofs.C18_Seq Corr.Common Corr.Core.
 Import ListNotations.
 Open Scope string_scope.
 Open Scope list_scope.
@@ -38,9 +38,11 @@ Record rcase := {
   r_objs : objects;
   r_action : string;
   r_map : list (string * string);                    (* the dict passed, in insertion order *)
-  r_sig : obs (list (string * string));              (* renamed signature (name, type name), or raised *)
+  r_more : list (list (string * string));            (* further dicts passed to further calls, one after another
+                                                        (the same one again, its inverse, another one); mostly [] *)
+  r_sig : obs (list (string * string));              (* signature after the last call (name, type name), or raised *)
   r_print0 : string;                                 (* the action's text before the call *)
-  r_print1 : obs string;                             (* ... after the call *)
+  r_print1 : obs string;                             (* ... after the last call *)
   r_probes : list rprobe
 }.
 
@@ -194,6 +196,15 @@ Definition admissibleb (consts : list string) (m : list (string * string)) (a : 
   forallb (fun p => String.eqb (rho p) p || negb (str_in (rho p) (bound_action a))) ps &&
   forallb (fun p => String.eqb (rho p) p || negb (str_in p consts)) ps.
 
+(* a sequence of mappings: each one admissible for the action as renamed so far (spec's reading) *)
+Fixpoint admissible_seqb (consts : list string) (ms : list (list (string * string))) (a : action) : bool :=
+  match ms with
+  | [] => true
+  | m :: r => admissibleb consts m a && admissible_seqb consts r (ren_action (rho_of m) a)
+  end.
+Definition ren_all (ms : list (list (string * string))) (a : action) : action :=
+  fold_left (fun a m => ren_action (rho_of m) a) ms a.
+
 (* The recorded finding D75: the mapping is a renaming of the parameters (moves them only, injective on them)
    but sends one to the name of a quantified variable of the action or of a constant of the domain.  The library
    does not notice; the renamed action can mean something else (capture).  Such cases are JUDGED (they are
@@ -223,15 +234,17 @@ Definition judge (c : rcase) : list verdict :=
   let md := match es with Ok e => parse_domain (rnum c) e | Err k => Err k end in
   let sd := match es with Ok e => read_domain (rnum c) e | Err _ => None end in
   let m := r_map c in
-  let rho := rho_of m in
+  let ms := r_map c :: r_more c in
   let ma := match md with Ok d => match dget (d_actions d) (r_action c) with Some a => Some (d, a) | None => None end
                         | Err _ => None end in
   let sa := match sd with Some d => match find_action d (r_action c) with Some a => Some (d, a) | None => None end
                         | None => None end in
-  let adm := match sa with Some (d, a) => admissibleb (map fst (sd_consts d)) m a | None => false end in
-  let cap := match sa with Some (d, a) => negb adm && captureb (map fst (sd_consts d)) m a | None => false end in
+  let adm := match sa with Some (d, a) => admissible_seqb (map fst (sd_consts d)) ms a | None => false end in
+  let cap := match sa, r_more c with
+             | Some (d, a), [] => negb adm && captureb (map fst (sd_consts d)) m a
+             | _, _ => false end in
   let judged := adm || cap in
-  let mr := match ma with Some (d, a) => Some (d, change_signature m a) | None => None end in   (* renamed once *)
+  let mr := match ma with Some (d, a) => Some (d, cs_seq ms a) | None => None end in   (* renamed once per case *)
   (* signature *)
   let v_sig :=
     {| v_agree := match ma with
@@ -239,12 +252,13 @@ Definition judge (c : rcase) : list verdict :=
                       match mr with
                       | Some (_, ra) => obs_eqb sig_eqb (Returned (ma_sig ra)) (r_sig c)
                       | None => false end &&
-                      (* every case the oracle judges lies inside the theorem: C18_rename's side condition holds *)
-                      (negb adm || renaming_ok d a m)
+                      (* every case the oracle judges lies inside the theorem: the side condition of C18_rename
+                         (of C18_rename_seq for several calls) holds at every step *)
+                      (negb adm || ok_seq d a ms)
                   | None => false end;
        v_ok := negb judged ||
                match sa with
-               | Some (_, a) => obs_eqb sig_eqb (Returned (map (fun pt => (rho (fst pt), snd pt)) (a_params a))) (r_sig c)
+               | Some (_, a) => obs_eqb sig_eqb (Returned (a_params (ren_all ms a))) (r_sig c)
                | None => false end;
        v_known := cap |} in
   (* text *)
@@ -252,7 +266,7 @@ Definition judge (c : rcase) : list verdict :=
     {| v_agree := match ma, r_print1 c with
                   | Some (d, _), Returned t1 =>
                       match model_action_of_text c d (r_print0 c), model_action_of_text c d t1 with
-                      | Ok a0, Ok a1 => maction_eqv a1 (change_signature m a0)
+                      | Ok a0, Ok a1 => maction_eqv a1 (cs_seq ms a0)
                       | Ok _, Err _ => negb adm     (* a foreign mapping can produce a text that is not an action *)
                       | _, _ => false
                       end
@@ -261,7 +275,7 @@ Definition judge (c : rcase) : list verdict :=
                match r_print1 c with
                | Returned t1 =>
                    match spec_action_of_text c (r_print0 c), spec_action_of_text c t1 with
-                   | Some a0, Some a1 => action_eqv a1 (ren_action rho a0)
+                   | Some a0, Some a1 => action_eqv a1 (ren_all ms a0)
                    | _, _ => false
                    end
                | Raised => false end;
@@ -292,26 +306,26 @@ Definition run (cs : list rcase) : string := t2s (map verdict_char (flat_map jud
 (* debugging aid for replay files *)
 Definition explain (c : rcase) :=
   let md := model_dom c in
-  let m := r_map c in
+  let m := r_map c :: r_more c in
   (match md with
    | Ok d => match dget (d_actions d) (r_action c) with
-             | Some a => Some (ma_sig (change_signature m a),
+             | Some a => Some (ma_sig (cs_seq m a),
                                match model_action_of_text c d (r_print0 c) with
-                               | Ok a0 => Some (change_signature m a0) | Err _ => None end,
+                               | Ok a0 => Some (cs_seq m a0) | Err _ => None end,
                                match r_print1 c with
                                | Returned t1 => match model_action_of_text c d t1 with Ok a1 => Some a1 | Err _ => None end
                                | Raised => None end,
-                               map (fun q => let g := ground_action d (change_signature m a) (q_args q) in
+                               map (fun q => let g := ground_action d (cs_seq m a) (q_args q) in
                                              (m_app c d g q, m_succ c d g q))
                                    (r_probes c))
              | None => None end
    | Err _ => None end,
    match spec_dom c with
    | Some d => match find_action d (r_action c) with
-               | Some a => Some (admissibleb (map fst (sd_consts d)) m a,
-                                 map (fun pt => (rho_of m (fst pt), snd pt)) (a_params a),
+               | Some a => Some (admissible_seqb (map fst (sd_consts d)) m a,
+                                 a_params (ren_all m a),
                                  match spec_action_of_text c (r_print0 c) with
-                                 | Some a0 => Some (ren_action (rho_of m) a0) | None => None end,
+                                 | Some a0 => Some (ren_all m a0) | None => None end,
                                  match r_print1 c with
                                  | Returned t1 => spec_action_of_text c t1 | Raised => None end)
                | None => None end
